@@ -37,7 +37,7 @@ fn random_shape(rng: &mut Rng, force_min_utxo: bool) -> Shape {
     if force_min_utxo && extra > 0 && min_utxo_on.is_empty() {
         min_utxo_on.push(rng.usize(extra));
     }
-    Shape { fees_in_min: rng.bool(), change: rng.chance(3, 4), extra_outputs: extra, min_utxo_on, datum_on_change: rng.chance(1, 4), token_in_change: false, metadata: rng.chance(1, 6) }
+    Shape { fees_in_min: rng.bool(), change: rng.chance(3, 4), extra_outputs: extra, min_utxo_on, datum_on_change: rng.chance(1, 4), token_in_change: false, metadata: rng.chance(1, 6), gift: match rng.below(6) { 0 | 1 => Some(0), 2 => Some(1_200_000), _ => None } }
 }
 
 fn resolve_once(compiler: &mut Compiler, lowered: &tir::Tx, q: i128, lovelace: i128, tag: u8) -> Outcome {
@@ -55,7 +55,7 @@ impl Property for C20 {
         "C20"
     }
     fn rule(&self) -> String {
-        "histories of 0..4 earlier resolutions on one tx3_cardano::Compiler instance (templates 'pay' with 0..4 extra outputs, with and without min_utxo, with stores that make them succeed or fail) followed by a target template (min_utxo on random output indices, incl. indices beyond the outputs of the previous transaction); the same target is resolved on a fresh, identically configured instance against the same single-UTxO store. Oracle: outcome (payload bytes + hash + fee, or error kind, or panic site) on the used instance = outcome on the fresh one; latest_tx_body before the target is logged as the candidate leak. Non-trivial: history length >= 1 and the target uses min_utxo; distinct = distinct (history, target, pparams).".into()
+        "histories of 0..4 earlier resolutions on one tx3_cardano::Compiler instance (templates 'pay' with 0..4 extra outputs, with and without min_utxo, with stores that make them succeed or fail) followed by a target template (min_utxo on random output indices, an optional output that is dropped from the body in a third of the cases, incl. indices beyond the outputs of the previous transaction); the same target is resolved on a fresh, identically configured instance against the same single-UTxO store. Oracle: outcome (payload bytes + hash + fee, or error kind, or panic site) on the used instance = outcome on the fresh one; latest_tx_body before the target is logged as the candidate leak. Non-trivial: history length >= 1 and the target uses min_utxo; distinct = distinct (history, target, pparams).".into()
     }
     fn assumptions(&self) -> Vec<String> {
         vec!["single-UTxO input blocks and the same store contents for both runs, so that hash order cannot differ between them".into()]
@@ -67,10 +67,10 @@ impl Property for C20 {
         }
     }
     fn required_features(&self, _tier: Tier) -> Vec<String> {
-        ["history/len-0", "history/len-4", "history/with-failure", "target/min_utxo", "target/index-beyond-previous-outputs", "outcome/ok", "state/latest_tx_body-set"].iter().map(|s| s.to_string()).collect()
+        ["history/len-0", "history/len-4", "history/with-failure", "target/min_utxo", "target/index-beyond-previous-outputs", "target/min_utxo+dropped-optional-output", "target/tight-balance", "outcome/ok", "state/latest_tx_body-set"].iter().map(|s| s.to_string()).collect()
     }
     fn run_case(&self, ctx: &mut Ctx, phase: &str, idx: u64, rng: &mut Rng) {
-        let pp = PP { mainnet: rng.bool(), a: *rng.pick(&[44u64, 1, 100, 0]), b: *rng.pick(&[155_381u64, 0]), coins_per_utxo_byte: *rng.pick(&[4310u64, 1, 34482]), extra_fees: *rng.pick(&[None, Some(0), Some(123_456)]), cost_models: vec![0, 1, 2] };
+        let pp = PP { mainnet: rng.bool(), a: *rng.pick(&[44u64, 1, 100, 0]), b: *rng.pick(&[155_381u64, 0]), coins_per_utxo_byte: if rng.chance(1, 3) { rng.range(1, 40_000) as u64 } else { *rng.pick(&[4310u64, 1, 34482, 289, 290, 291]) }, extra_fees: *rng.pick(&[None, Some(0), Some(123_456)]), cost_models: vec![0, 1, 2] };
         let hlen = rng.usize(5);
         ctx.count(&format!("history/len-{hlen}"));
         let mut used = env::compiler(&pp);
@@ -98,6 +98,9 @@ impl Property for C20 {
         let target_shape = random_shape(rng, true);
         if !target_shape.min_utxo_on.is_empty() {
             ctx.count("target/min_utxo");
+            if target_shape.gift == Some(0) {
+                ctx.count("target/min_utxo+dropped-optional-output");
+            }
         }
         if let (Some(prev), Some(max_idx)) = (body_before, target_shape.min_utxo_on.iter().max()) {
             if 1 + max_idx >= prev {
@@ -111,7 +114,25 @@ impl Property for C20 {
             return;
         };
         let q = rng.range(1_000_000, 3_000_000) as i128;
-        let lovelace = if rng.chance(1, 6) { rng.range(0, 2_000_000) as i128 } else { 60_000_000 + rng.range(0, 40_000_000) as i128 };
+        let mut lovelace = if rng.chance(1, 6) { rng.range(0, 2_000_000) as i128 } else { 60_000_000 + rng.range(0, 40_000_000) as i128 };
+        if rng.chance(1, 3) {
+            // tight balance: the smallest UTxO with which a *fresh* instance resolves the target (binary
+            // search), plus a small offset - where a min_utxo sized from a stale body flips the outcome
+            let ok_with = |l: i128| matches!(resolve_once(&mut env::compiler(&pp), &lowered, q, l, 0x77), Outcome::Ok { .. });
+            let (mut lo, mut hi) = (0i128, 200_000_000i128);
+            if ok_with(hi) {
+                while hi - lo > 1 {
+                    let mid = (lo + hi) / 2;
+                    if ok_with(mid) {
+                        hi = mid;
+                    } else {
+                        lo = mid;
+                    }
+                }
+                lovelace = hi + *rng.pick(&[0i128, 0, 1, -1, 100, 1_000, 20_000, 150_000]);
+                ctx.count("target/tight-balance");
+            }
+        }
         ctx.eval();
         let on_used = resolve_once(&mut used, &lowered, q, lovelace, 0x77);
         let mut fresh = env::compiler(&pp);
